@@ -472,7 +472,7 @@ func RunLoaded(l *Loaded, o Opts) *report.Report {
 		}
 		tr := &vsched.Trace{Harness: o.Harness, Violation: label, Final: map[int]string{}, Inputs: map[string][]int64{}, Files: m.FileList()}
 		for i, t := range m.Threads() {
-			tr.Threads = append(tr.Threads, vsched.TraceThread{ID: i, Name: t.Name, Parent: t.Parent, Site: t.Site})
+			tr.Threads = append(tr.Threads, vsched.TraceThread{ID: i, Name: t.Name, Parent: t.Parent, Site: t.Site, ChildIdx: t.ChildIdx})
 		}
 		type fr struct {
 			f  eng.FireRec
